@@ -146,6 +146,27 @@ def oracle_localaddr(case, impl):
     return "localaddr: " + impl[:80]
 
 
+def oracle_cap_answered(case, impl):
+    """C01 under exhausted capacity: more queries in flight than max-inflight-requests - the extra ones wait for a free unit
+    and are then answered; none is dropped ("never silence")."""
+    import re
+    if case.startswith("capudp "):
+        m = re.match(r"max=(\d+) replied=(\d+)/(\d+)", impl)
+        if m and m.group(2) != m.group(3):
+            return "only %s of %s UDP queries were answered after transient failures of the listener's read" % (m.group(2), m.group(3))
+        return None
+    k = case.split(" ")[1]
+    m = re.match(r"max=(\d+) replied=(\d+)/(\d+) probe=(\w+) mix=\S+ mixreplied=(\d+)/(\d+)", impl)
+    if not m:
+        return None
+    if m.group(2) != m.group(3):
+        return ("%s well-formed UDP queries were in flight with max-inflight-requests=%s and a slow upstream: only %s were answered, "
+                "the others got no reply at all (not even SERVFAIL)" % (m.group(3), k, m.group(2)))
+    if m.group(5) != m.group(6):
+        return "%s queries in flight over UDP and TCP with max-inflight-requests=%s: only %s answered" % (m.group(6), k, m.group(5))
+    return None
+
+
 SPEC = dict(
     lean_module="NV.Props.C01",
     areas=[dict(name="sock", n_quick=3000, n_thorough=40000, shards_thorough=8, oracle=oracle_c01,
@@ -154,6 +175,8 @@ SPEC = dict(
                 nontrivial=lambda c, i: len(i) > 8),
            dict(name="e2e", n_quick=1500, n_thorough=24000, shards_thorough=8, oracle=oracle_e2e, timeout=900,
                 nontrivial=lambda c, i: len(i) > 8),
+           # more queries in flight than capacity units (area shared with C04): every one is answered in the end
+           dict(name="cap", n_quick=3, n_thorough=30, shards_thorough=3, oracle=oracle_cap_answered, timeout=600),
            # one wildcard UDP listener, clients on several local addresses in flight together
            dict(name="localaddr", n_quick=25, n_thorough=300, shards_thorough=2, oracle=oracle_localaddr, timeout=600),
            # one TCP connection as a byte stream: framing, write boundaries, small / incomplete frames, half-close
